@@ -2,9 +2,9 @@
    Model: model/Engine.v `do_action` = Process::do_action + Task::update. *)
 From Coq Require Import List Arith ZArith Bool.
 Import ListNotations.
-From Acts.Gen Require Import GenState GenUpdate.
+From Acts.Gen Require Import GenState GenUpdate GenDoAction.
 From Acts.Model Require Import Engine Oracles.
-From Acts.Proofs Require Import C05Proofs C02Core C02Ops FinalProofs UpdateTable.
+From Acts.Proofs Require Import C05Proofs C02Core C02Ops FinalProofs ActionNames UpdateTable.
 
 (* a rejected complete / submit / skip / remove / abort / error / back / push changes no task, emits
    no message, queues nothing: the engine state is returned as it was, only the result marker is
